@@ -247,3 +247,14 @@ def f6_variables(ctx):
 
 
 RULES = [('F1', f1_cells), ('F2', f2_fresh_tokens), ('F3', f3_ambient), ('F4', f4_isolation), ('F5', f5_cursor), ('F6', f6_variables)]
+
+
+def f7_rebinding_keys(ctx):
+    """V4 (shared with C03): a session that persists keeps one binding per name only if the key under which a binding is stored
+    and the key under which an assignment looks it up are built alike (both lower-cased); otherwise a re-used session
+    accumulates a second binding and later lines read the stale one"""
+    from .C03 import v4_keys
+    v4_keys(ctx)
+
+
+RULES.append(('V4', f7_rebinding_keys))
